@@ -1,7 +1,7 @@
 //! C18 — validation work is linear in the packet size.
 //!
 //! Observation: the cfg-guarded step counter's delta across DNSSector::parse.
-//! Oracle 1: steps <= 32*len + 1024 on every input. Oracle 2 (scale-free):
+//! Oracle 1: steps <= 64*len + 4096 on every input. Oracle 2 (scale-free):
 //! for each adversarial family the fitted exponent of steps vs. len is <= 1.15.
 
 use super::*;
@@ -9,8 +9,11 @@ use crate::gen::hostile::{parse_input, Asm};
 use crate::model::msg::*;
 use crate::prng::Rng;
 
-pub const SLOPE: u64 = 32;
-pub const CONST: u64 = 1024;
+// three times today's densest case (20.6 steps per byte: 14-byte NS records naming twice through 16 hops and
+// 127 labels), so that a legitimate change of the constant factor (validating a name twice, a linear pre-scan)
+// stays silent while a defeated per-name limit (hundreds of steps per byte) does not
+pub const SLOPE: u64 = 64;
+pub const CONST: u64 = 4096;
 
 /// Bytes the parser may request from the allocator: a fixed multiple of the input plus a constant
 /// (today it allocates nothing but the error value).
